@@ -503,7 +503,15 @@ class Interp:
         def b_timedelta(**kw):
             if set(kw) != {"microseconds"}:
                 if any(is_sym(v) for v in kw.values()):
-                    raise Inapplicable("timedelta with symbolic non-microsecond fields")
+                    # integer fields: the duration is their exact sum in microseconds (A: stdlib)
+                    unit = {"days": 86400 * 10 ** 6, "hours": 3600 * 10 ** 6, "minutes": 60 * 10 ** 6, "seconds": 10 ** 6,
+                            "milliseconds": 1000, "microseconds": 1, "weeks": 7 * 86400 * 10 ** 6}
+                    if any(k not in unit or isinstance(v, (SNum, float)) for k, v in kw.items()):
+                        raise Inapplicable("timedelta with symbolic non-integer fields")
+                    total = 0
+                    for k, v in kw.items():
+                        total = total + v * unit[k]
+                    return SymTimedelta(total)
                 import datetime
                 return datetime.timedelta(**kw)
             us = kw["microseconds"]
